@@ -10,6 +10,26 @@ E3 = "procsim (process-level simulator: strace syscall fault / kill injection)"
 
 # id -> (engine, category, technique, level text, level note, design ref)
 CHECKS = {
+ "C01": (E1, "exploration",
+   "deterministic simulation: Byzantine signature lists injected at each of 8 verification sites of a full simulated update cycle; ground-truth bookkeeping oracle; thorough tier sweeps the finite word space",
+   "Every run builds a whole repository with the foreign publisher, replaces the signature list of one document (shipped root, root N+1 under old keys / new keys, timestamp, snapshot, targets, delegated role at depth 1 and 2) by a word over the property's 7-letter alphabet and runs tough's real update cycle; accept must coincide with the harness's count of distinct authorised valid signatures. Thorough enumerates all 19 608 words x 8 sites x 16 (keys, threshold) shapes, then seeded runs with mixed algorithms.",
+   "Trusts aws-lc signatures, the harness's reference canonical JSON, and its bookkeeping of who signed what. Simulation contributes the workflow sites and replay, not schedules: the property has no clock or interleaving.", "DESIGN.md §5 C01"),
+ "C02": (E1, "exploration",
+   "deterministic simulation: seeded root-chain histories with one broken hop, revoked-key metadata and availability faults on the root probe, against a reference walk",
+   "Seeded chains of 1..5 roots with per-hop rotation kinds, shipped root anywhere (optionally not self-verifying), at most one hop broken in one of ten ways, top-level metadata signed by the online keys of any epoch, and fetch/stream x not-found/other faults on one root request. Oracle: reference walk from harness bookkeeping; success only with the last root reachable by acceptable hops, requests consecutive, revoked keys never accepted, good chains accepted.",
+   "Trusts harness bookkeeping of signers; expiry is excluded (C04).", "DESIGN.md §5 C02"),
+ "C03": (E1, "exploration",
+   "deterministic simulation: seeded multi-cycle histories on one persistent datastore with replay of genuinely signed older files, failed cycles and key rotations between cycles",
+   "Histories of 2..4 cycles over one real datastore directory; each cycle serves genuinely signed (timestamp, snapshot, targets, listed-targets) versions from 1..3 independently, 1..4 root versions change per-role keys/thresholds, shipped root older than or equal to the newest. Oracle: versions reported by earlier successful cycles must never decrease unless a newer root changed the role's keys; forward-moving repositories must not be locked out.",
+   "Trusted versions are observed from the client's own Repository objects; published roots never shrink between cycles; shipped roots never get older.", "DESIGN.md §5 C03"),
+ "C04": (E1, "exploration",
+   "deterministic simulation with a virtual clock (hook H1): clock trajectories incl. jumps at a chosen fetch inside load and backward jumps between operations",
+   "The client's only clock is the simulated absolute time; scenarios set expiries of the four roles at T0 +/- 1s..30y, run 1..5 operations (load, read_target, save_target) on one datastore and move the clock forward between and inside operations and backward between them. Oracle per clause (expired at the clock in force when the role's file was requested => must fail; nothing expired and clock monotone => must not fail for expiry/clock; enforcement off => never).",
+   "Assumes H1 is the only clock read (Datastore::system_time); the instant now == expires is not judged.", "DESIGN.md §5 C04"),
+ "C14": (E1, "exploration",
+   "deterministic simulation: two-cycle histories across a root-key rotation with attacker-inflated stored versions (up to 2^64-2)",
+   "Cycle 1 stores timestamp/snapshot at inflated versions; a chain of 0..3 newer roots then replaces timestamp and/or snapshot keys (disjoint, overlapping so that the stored file still verifies, drop-one, add, threshold-only, rotate-and-back); cycle 2 serves low versions. Oracle: replaced keys => must not be refused as rollback; nothing changed => lower versions must be refused.",
+   "Key additions, threshold-only changes and rotate-and-back are not judged; the client ships the same old root in both cycles.", "DESIGN.md §5 C14"),
  "C06": (E1, "exploration",
    "deterministic simulation: seeded fault injection on the target byte stream (SimTransport) against tough's real client",
    "Seeded search over target sizes, chunkings, Pending points and one corruption kind per run (bit flip, truncation, extension, substitution, endless stream, transport error at chunk k); the oracle checks every delivered byte count and the harness's own SHA-256 of what the caller received. Sampling, not proof; each run is exactly replayable from its scenario file.",
